@@ -257,8 +257,9 @@ func runC17(c *Ctx, idx int, o *Obs) {
 			items = append(items, mkOne(m))
 			lines = append(lines, m.Newick())
 		}
-		f := tmpFile(c, "nni.nw", strings.Join(lines, "\n")+"\n")
-		res := runCLI(c, "", "nni", "-i", f)
+		inArgs, inStdin, inMode := presentTrees(c, r, "nni", lines, false)
+		o.Ev("cli_input:"+inMode, 1)
+		res := runCLI(c, inStdin, append([]string{"nni"}, inArgs...)...)
 		o.Ev("cli", 1)
 		inp := strings.Join(lines, "\n")
 		if !o.Check(res.Exit == 0 && !res.Panic, "cli_nni_failed", res.brief(), inp, tag...) {
